@@ -50,6 +50,37 @@ def deep_families(k):
     ]
 
 
+WS = ["\xa0", "\x0b", "\x0c", "\x1c", "\x1d", "\x1e", "\x1f", "\x85", "\u1680", "\u2000", "\u2003", "\u200a", "\u2028", "\u2029", "\u202f", "\u205f",
+      "\u3000", "&nbsp;", "&#160;", "&emsp;", "&#x2003;", "&#12;", "&#x85;", " ", "\t", "\u200b", "\ufeff"]
+
+
+def ws_doc(r):
+    """Unicode white space (raw and as character references) at every site that trims or splits a string:
+    fence info, link destinations / titles / labels, heading and paragraph edges, table cells, html attributes"""
+    w = lambda: "".join(r.choice(WS) for _ in range(r.randrange(1, 4)))  # noqa: E731
+    word = lambda: r.choice(["", "", "a", "py", "x y"])  # noqa: E731
+    fence = r.choice(["```", "~~~", "````"])
+    shapes = [
+        lambda: f"{fence}{w()}{word()}{w() if r.random() < 0.5 else ''}\ncode\n{fence}\n",
+        lambda: f"{fence} {w()}\ncode\n",
+        lambda: f"[{w()}]: {w()}\n\n[{w()}]\n",
+        lambda: f"[a]({w()})  [b](<{w()}> \"{w()}\") ![{w()}]({w()})\n",
+        lambda: f"[l]:{w()}/u{w()}'t'\n\n[l]\n",
+        lambda: f"#{w()}h{w()}#\n{w()}\n{w()}p{w()}\n===\n",
+        lambda: f"|{w()}|{w()}x|\n|-|{w()}-|\n|{w()}|\n",
+        lambda: f"<a href={w()}>\n\n<!--{w()}-->\n<b {w()}>x</b>\n",
+        lambda: f"-{w()}a\n1.{w()}b\n>{w()}c\n",
+        lambda: f"`{w()}` *{w()}* **a{w()}** ~~{w()}~~ \"{w()}\" <{w()}@b.c> &{w()};\n",
+    ]
+    body = r.choice(shapes)()
+    pre = r.choice(["", "", "> ", "- ", "1. ", "> - "])
+    if pre:
+        pad = {"> ": "> ", "- ": "  ", "1. ": "   ", "> - ": ">   "}[pre]
+        lines = body.split("\n")
+        body = "\n".join((pre if i == 0 else pad) + ln if ln or i == 0 else ln for i, ln in enumerate(lines))
+    return body
+
+
 def cli_case(data: bytes):
     from markdown_it.cli import parse as cli
     with tempfile.NamedTemporaryFile(delete=False, dir="/verif/work", suffix=".md") as f:
@@ -83,8 +114,10 @@ def run(ctx) -> int:
     alpha = docs.line_alphabet()
     for k in range(500 if q else 12000):
         cfg = configs.STANDARD[k % 5] if k % 3 == 0 else configs.random_config(rng)
-        r = k % 4
-        if r == 0:
+        r = k % 5
+        if r == 4:
+            src = ws_doc(rng)
+        elif r == 0:
             src = docs.random_doc(rng)
         elif r == 1:
             src = "\n".join(rng.choice(alpha) for _ in range(rng.randrange(1, 5))) + rng.choice(["", "\n"])
@@ -107,7 +140,7 @@ def run(ctx) -> int:
             md = configs.make_md(cfg)
             if not supported(md):
                 continue
-            src = docs.random_doc(r) if k % 2 else docs.grammar_doc(r)
+            src = (docs.random_doc(r) if k % 2 else docs.grammar_doc(r)) if k % 3 else ws_doc(r)
             counts["generated"] += 1
             d = total_on(md, src)
             if d:
@@ -180,7 +213,7 @@ def run(ctx) -> int:
         "re / str primitives never raise on str input; surrogate code points excluded; linkify-it-py absent (its guard is modelled)"])
     cov.update({
         "evaluations": n_corr + sum(counts.values()), "distinct_nontrivial": len(set(lines)) + sum(counts.values()),
-        "rule": "correspondence: (configuration, API, document) with documents from the seed corpus, mutations, the container x leaf grammar, the 47-shape line alphabet and truncations; implementation: generated documents x configuration lattice x 4 APIs; ALL pairs of line shapes (2209) and sampled 3-4 line sequences, with and without final LF, under js-default / html+table / typographer configurations; truncated seeds; 40 deep-nesting / long-run families at depths 40 and 150 (thorough: up to 2500) incl. maxNesting=3; CLI on random bytes; the documented TypeErrors and ModuleNotFoundError",
+        "rule": "correspondence: (configuration, API, document) with documents from the seed corpus, mutations, the container x leaf grammar, the 47-shape line alphabet, truncations and the Unicode-white-space family (27 blanks / references at every trimming or splitting site); implementation: generated documents x configuration lattice x 4 APIs; ALL pairs of line shapes (2209) and sampled 3-4 line sequences, with and without final LF, under js-default / html+table / typographer configurations; truncated seeds; 40 deep-nesting / long-run families at depths 40 and 150 (thorough: up to 2500) incl. maxNesting=3; CLI on random bytes; the documented TypeErrors and ModuleNotFoundError",
         "samples": [{"src": cases[1][2], "api": cases[1][1]}, {"family": deep_families(5)[8]}],
         "traces_validated_against_impl": n_corr, "implementation_probes": counts,
         "in_kernel_cases": kn, "in_kernel_mismatches": len(kbad), "disagreements": len(disagreements),
